@@ -106,6 +106,9 @@ func (r *apiRig) close() {
 	for _, s := range r.servers {
 		s.Shutdown()
 	}
+	for _, n := range []string{"a", "b", "c", "ghost"} {
+		removeSockLock(r.file(n))
+	}
 	os.RemoveAll(r.dir)
 }
 
